@@ -10,8 +10,9 @@ open Flussab
 def genBytes (len seed : Nat) : WBytes :=
   (List.range len).map fun j => UInt8.ofNat ((seed * 31 + j * 7 + j / 256) % 256)
 
+/-- FNV-1a, 64 bit (machine arithmetic: the sink contents of a scale case are several MiB). -/
 def fnv (bs : WBytes) : Nat :=
-  bs.foldl (fun h b => ((h ^^^ b.toNat) * 0x100000001b3) % 18446744073709551616) 0xcbf29ce484222325
+  (bs.foldl (fun (h : UInt64) b => (h ^^^ b.toUInt64) * 0x100000001b3) 0xcbf29ce484222325).toNat
 
 def hex16 (n : Nat) : String :=
   String.ofList ((List.range 16).reverse.map fun i => hexDigit ((n / 16 ^ i) % 16))
@@ -37,13 +38,16 @@ def parseTy (s : String) : Bool × Nat :=
   let rest := String.ofList (s.toList.drop 1)
   (signed, if rest == "size" then 64 else rest.toNat?.getD 64)
 
-def parseWOp (t : String) : Option Writer.Op :=
+/-- `k` is added to the data seed (iteration of a repeated op). -/
+def parseWOpK (t : String) (k : Nat) : Option Writer.Op :=
   match t.toList with
   | 'w' :: r | 'W' :: r =>
     match (String.ofList r).splitOn "." with
-    | [l, s] => some (.write (genBytes (l.toNat?.getD 0) (s.toNat?.getD 0)))
+    | [l, s] => some (.write (genBytes (l.toNat?.getD 0) (s.toNat?.getD 0 + k)))
     | _ => none
   | 'd' :: 'r' :: [] => some .drop
+  -- the caller panics with the writer alive: the unwinding drops it (`Drop` is the same code)
+  | ['u', 'd', 'r', 'o', 'p'] => some .drop
   | 'd' :: r =>
     match (String.ofList r).splitOn ":" with
     | [ty, v] => let (s, b) := parseTy ty; some (.digits s b (parseInt v))
@@ -52,11 +56,30 @@ def parseWOp (t : String) : Option Writer.Op :=
     match (String.ofList r).splitOn "." with
     | [l, bl, s] =>
       let len := l.toNat?.getD 0
-      some (.ptr len (genBytes (min (bl.toNat?.getD 0) len) (s.toNat?.getD 0)))
+      some (.ptr len (genBytes (min (bl.toNat?.getD 0) len) (s.toNat?.getD 0 + k)))
     | _ => none
   | ['f', 'l'] => some .flush
   | ['f', 'd'] => some .flushDefer
   | ['c', 'k'] => some .check
+  | _ => none
+
+def parseWOp (t : String) : Option Writer.Op := parseWOpK t 0
+
+def isWriteLike : Writer.Op → Bool
+  | .write _ | .digits _ _ _ | .ptr _ _ => true
+  | _ => false
+
+/-- `x<count>:<op>`: the count and the op text. -/
+def parseRepeat (t : String) : Option (Nat × String) :=
+  match t.toList with
+  | 'x' :: r =>
+    match (String.ofList r).splitOn ":" with
+    | c :: rest@(_ :: _) =>
+      let inner := ":".intercalate rest
+      match parseWOpK inner 0 with
+      | some op => if isWriteLike op then some (c.toNat?.getD 0, inner) else none
+      | none => none
+    | _ => none
   | _ => none
 
 def showWRes (op : Writer.Op) : Option Bool → String
@@ -66,6 +89,23 @@ def showWRes (op : Writer.Op) : Option Bool → String
     | .flush | .check => if b then "err" else "ok"
     | _ => "ok"
 
+/-- Run a repeated write-like op: results as runs (most recent first), final writer, number of
+iterations that reached the sink, largest buffer length seen. -/
+def runRepeat (inner : String) : Nat → Nat → Writer → List (String × Nat) → Nat → Nat →
+    Writer × List (String × Nat) × Nat × Nat
+  | 0, _, w, runs, cold, maxbuf => (w, runs, cold, maxbuf)
+  | n + 1, k, w, runs, cold, maxbuf =>
+    match parseWOpK inner k with
+    | none => (w, runs, cold, maxbuf)
+    | some op =>
+      let (res, w') := op.run w
+      let r := showWRes op res
+      let runs := match runs with
+        | (last, c) :: rest => if last == r then (last, c + 1) :: rest else (r, 1) :: runs
+        | [] => [(r, 1)]
+      let cold := if w'.sink.log.length != w.sink.log.length then cold + 1 else cold
+      runRepeat inner n (k + 1) w' runs cold (max maxbuf w'.buf.length)
+
 def runWriterCase (line : String) : String × String :=
   let fs := fields line
   let w0 : Writer := { sink := { sched := parseWSched (field fs "s") } }
@@ -73,6 +113,12 @@ def runWriterCase (line : String) : String × String :=
   let (outs, w, _, cold, maxbuf) := ops.foldl (fun (acc : List String × Writer × Bool × Nat × Nat) t =>
       let (outs, w, dropped, cold, maxbuf) := acc
       if dropped then acc else
+      match parseRepeat t with
+      | some (count, inner) =>
+        let (w', runs, cold, maxbuf) := runRepeat inner count 0 w [] cold maxbuf
+        let txt := if runs.isEmpty then "-" else "/".intercalate (runs.reverse.map fun (r, c) => s!"{r}*{c}")
+        (outs ++ [txt], w', dropped, cold, maxbuf)
+      | none =>
       match parseWOp t with
       | none => (outs ++ ["bad-op"], w, dropped, cold, maxbuf)
       | some op =>
